@@ -1,4 +1,4 @@
-(* Model of the segment part of src/asm/mod.rs (after the fixes d7ad029 F12, 14f510b F13, a613c66, fe020dd F14):
+(* Model of the segment part of src/asm/mod.rs (after the fixes d7ad029 F12, 14f510b F13, a613c66, fe020dd F14, 8bb2c3e):
    ActiveSegment::{curr_addr, remaining, has_remaining, covers, write, write_at}, Segment::make_active.
    Pure functions on the active segment; the Context-level change_segment / close_segment are in CtxModel.v.
    u32 / usize values are N.  `dbg` = overflow checks on (profile relchk) / off (profile release), as in MapModel.v.
@@ -55,8 +55,9 @@ Definition sbind {A B} (r : sres A) (k : A -> sres B) : sres B :=
   match r with SOk a => k a | SOverflow n h => SOverflow n h | SPanic p => SPanic p end.
 Notation "'sdo' x <- r ; k" := (sbind r (fun x => k)) (at level 200, x name, r at level 100, k at level 200).
 
-(* base_addr.saturating_add(buffer.len() as u32) *)
-Definition curr_addr (s : aseg) : N := MapModel.sat_add32 (s_base s) (N.land (blen s) U32MAX).
+(* base_addr.saturating_add(u32::try_from(buffer.len()).unwrap_or(u32::MAX))  (fix 8bb2c3e: the length saturates,
+   it is no longer truncated mod 2^32) *)
+Definition curr_addr (s : aseg) : N := MapModel.sat_add32 (s_base s) (N.min (blen s) U32MAX).
 
 (* max_len - buffer.len(): usize subtraction *)
 Definition remaining (dbg : bool) (s : aseg) : sres N :=
